@@ -353,11 +353,35 @@ def run(rec, shard, nshards, t):
             if i < 2 and shard == 0:
                 rec.sample({'header': header, 'inspect': parse_inspect(out)})
             os.unlink(path)
+        if shard == 0:
+            canonical_header_witness(rec, tmp)
     finally:
         shutil.rmtree(tmp, ignore_errors=True)
     if shard == 0:
         rec.sample({'arrangement': ['skip', 'date', 'ca', 'amount'], 'rendered': render(['skip', 'date', 'ca', 'amount'], rnd, ('type', 'merchant'))[0]})
         probe_comma(rec)
+
+
+def canonical_header_witness(rec, tmp):
+    """The header every example uses (Date, Description, Amount) over cells of several shapes - a time after the date, a blank before the amount, long lines:
+    inspect reports columns 0 / 1 / 2 and its suggestion selects them."""
+    shapes = {'plain': ['01/15/2025,COFFEE SHOP,4.50', '01/16/2025,BOOK STORE,14.50', '01/17/2025,GROCER,44.50'],
+              'time-after-date': ['01/15/2025 08:30:12,COFFEE SHOP, 4.50', '01/16/2025 09:30:12,BOOK STORE, 14.50', '01/17/2025 10:30:12,GROCER, 44.50', '01/18/2025 11:00:00,BAKERY, 3.25'],
+              'time-and-long-lines': ['01/%02d/2025 08:30:12,%s, %d.50' % (i + 1, 'A RATHER LONG DESCRIPTION OF A PURCHASE NUMBER %02d AT A STORE WITH A LONG NAME' % i, 10 + i) for i in range(6)],
+              'blank-before-amount': ['01/15/2025,COFFEE SHOP, 4.50', '01/16/2025,BOOK STORE, 14.50', '01/17/2025,GROCER, 44.50']}
+    for name, lines in shapes.items():
+        path = os.path.join(tmp, 'canon.csv')
+        with open(path, 'w') as f:
+            f.write('Date,Description,Amount\n' + '\n'.join(lines) + '\n')
+        out, rc = run_inspect_cli(path, tmp)
+        r = parse_inspect(out)
+        rec.case()
+        rec.count('canonical_header_files_inspected')
+        if rc != 0 or (r.get('date'), r.get('description'), r.get('amount')) != (0, 1, 2):
+            rec.violation('inspect-misreads-the-canonical-header', f'Date,Description,Amount over {name} cells: inspect (exit {rc}) reports date/description/amount columns '
+                          f'{(r.get("date"), r.get("description"), r.get("amount"))}, suggestion {r.get("suggest")!r}', {'kind': 'canonical'})
+            return
+        judge_inspect(rec, ['Date', 'Description', 'Amount'], out, rc, 'cli')
 
 
 def whitespace_twins(rec, rnd):
@@ -403,6 +427,12 @@ def replay(rec, case):
             whitespace_twins(rec, rnd)
     elif case['kind'] == 'comma':
         probe_comma(rec)
+    elif case['kind'] == 'canonical':
+        tmp = tempfile.mkdtemp(prefix='vt-c18-')
+        try:
+            canonical_header_witness(rec, tmp)
+        finally:
+            shutil.rmtree(tmp, ignore_errors=True)
     elif case['kind'] == 'arr':
         from tally.format_parser import parse_format_string
         for tv in ('valid', 'none', 'dangling'):
